@@ -98,7 +98,7 @@ def judge(ctx, p, outcome):
         ctx.reach("ok:wrapped")
     for i, w in enumerate(res):
         if str(w) != cm[i % len(cm)]:
-            ctx.violate(f"C19: element {i} is {w!r} instead of the (i mod len)-th well {cm[i % len(cm)]!r} in column-major order")
+            ctx.violate(f"C19: element {i} is {str(w)!r} instead of the (i mod len)-th well {cm[i % len(cm)]!r} in column-major order")
             return
 
 
